@@ -52,6 +52,7 @@ def gen_args(rng, large=False):
             "kw": kw,
             "relative": rng.random() < 0.5,
             "shared_dir": rng.random() < 0.25,
+            "path_objects": rng.random() < 0.3,
             "r": rng.choice(RADII[:3] if large else RADII),
             "origin": [rng.choice([0.0, 0.3, -0.7, 1.4, 0.5]) for _ in range(3)],
             "bounds": rng.choice(BOUNDS),
@@ -69,6 +70,7 @@ def gen_args(rng, large=False):
         "kw": kw,
         "relative": rng.random() < 0.5,
         "shared_dir": rng.random() < 0.25,
+        "path_objects": rng.random() < 0.3,
         "r": round(rng.uniform(1.0, 4.5 if large else 12.0), 3),
         "origin": [round(rng.uniform(-1.5, 2.5), 4) for _ in range(3)],
         "bounds": [lo, hi],
